@@ -391,11 +391,18 @@ def generic_run(mod, cases, seed=0, shard=400):
             nt = mod.nontrivial(c, ob)
         except Exception:
             nt = False
-        if t not in seen and nt:
-            seen.add(t)
+        tkey = t if t is not None else 'oracle-only:' + json.dumps(c, sort_keys=True, default=repr)
+        if tkey not in seen and nt:
+            seen.add(tkey)
             nontriv += 1
+    # a stream that is decided by the oracle alone renders None: such cases are not sent to Coq
+    sent = [i for i, t in enumerate(terms) if t is not None]
+    stats['oracle-only cases (no model side)'] = len(terms) - len(sent)
+    if not stats['oracle-only cases (no model side)']:
+        del stats['oracle-only cases (no model side)']
     bad, err = coq_check_cases(mod.__name__.split('.')[-1].upper(), mod.IMPORTS, mod.CHECK_FN,
-                               terms, shard=shard)
+                               [terms[i] for i in sent], shard=shard)
+    bad = [sent[j] for j in bad]
     return {'observations': obs, 'oracle': orc, 'corr_bad': bad, 'corr_error': err,
             'stats': stats, 'nontrivial': nontriv, 'terms': terms,
             'samples': [{'case': cases[i], 'impl': obs[i]} for i in range(min(3, len(cases)))]}
